@@ -49,8 +49,11 @@ theorem goodv_eval (hasym : Asymm lt) : ∀ (a : Ast) (v : Val), namesOnce a = t
     subst h
     exact ⟨⟨by simp [valVars, canonVar_plain], by simp [valVars], by simp [valVars, names, Var.plain]⟩, trivial⟩
   | .kw k, v, _, h => by
-    cases k <;> simp only [eval, Except.ok.injEq] at h <;> subst h <;> refine ⟨vok_of_novars _ _ rfl, ?_⟩ <;>
-      simp [KOk, canonPop]
+    cases k <;> simp only [eval, Except.ok.injEq] at h <;> subst h
+    case TargetDomain =>
+      exact ⟨⟨by simp [valVars, targetDomain, canonVar_plain], by simp [valVars],
+        by simp [valVars, names, targetDomain, Var.plain]⟩, trivial⟩
+    all_goals refine ⟨vok_of_novars _ _ rfl, ?_⟩ <;> simp [KOk, canonPop]
   | .tuple xs, v, hn, h => by
     simp only [eval, bind, Except.bind] at h
     cases hl : evalList lt xs with
